@@ -176,6 +176,7 @@ func (e *FEnc) instr(st *State, b *ssa.BasicBlock, idx int, in ssa.Instruction) 
 			gname := calleeName(&x.Call)
 			e.atCall(st, in, gname, gargs, nil)
 			st.called[gname] = "true"
+			st.countCall(gname)
 		}
 		for _, a := range x.Call.Args {
 			e.leakVal(e.valOf(a))
